@@ -131,7 +131,17 @@ def job_cli(job: dict) -> dict:
     files = projects.build(job["n"], job["cross"], job.get("layout", "flat"))
     drive.write_tree(root, dict(files))
     (root / ".thailint.yaml").write_text(projects.BASE_CONFIG)
-    targets = ["."] if job["target"] == "dir" else [rel for rel, _ in files]
+    rels = [rel for rel, _ in files]
+    if job["target"] == "dir":
+        targets = ["."]
+    elif job["target"] == "files":
+        targets = rels
+    elif job["target"] == "dirs":
+        # several directory arguments: one run per argument in either mode (cross-file evidence does not span arguments)
+        targets = sorted({r.split("/")[0] for r in rels if "/" in r})
+    else:   # "mixed": the files of the first half named one by one (one run), then the directories of the second half
+        half = len(rels) // 2
+        targets = rels[:half] + sorted({r.split("/")[0] for r in rels[half:] if "/" in r})
     out = {}
     for mode in ("seq", "par"):
         argv = [job["cmd"], "--format", "json"] + (["--parallel"] if mode == "par" else []) + targets
@@ -336,9 +346,10 @@ def run(chk) -> None:
     cmds = sorted(kit.COMMANDS) if not quick else ["dry", "stringly-typed", "nesting", "magic-numbers",
                                                    "unwrap-abuse", "perf", "improper-logging"]
     for cmd in cmds:
-        for n, target in ([(20, "dir"), (20, "files")] if quick else [(20, "dir"), (20, "files"), (15, "dir"), (41, "files")]):
+        for n, target in ([(20, "dir"), (20, "files"), (20, "dirs"), (20, "mixed")] if quick else
+                          [(20, "dir"), (20, "files"), (15, "dir"), (41, "files"), (20, "dirs"), (34, "dirs"), (20, "mixed"), (40, "mixed")]):
             cjobs.append({"cmd": cmd, "n": n, "cross": cross_for(n), "target": target,
-                          "layout": "samename" if len(cjobs) % 2 else "flat",
+                          "layout": "samename" if (len(cjobs) % 2 or target in ("dirs", "mixed")) else "flat",
                           "root": str(scratch_root() / f"c07cli-{len(cjobs)}" / "proj")})
     cres = pool.run_jobs(job_cli, cjobs, nproc=max(2, NCPU // 2), timeout=300)
     for job, res in zip(cjobs, cres):
